@@ -33,6 +33,9 @@ def c09_extra(prop,tier,seed,repo,reg,known):
 def c18_extra(prop,tier,seed,repo,reg,known):
   from zoo.run import run_mem
   return run_mem(repo,seed,tier)
+def c16_extra(prop,tier,seed,repo,reg,known):
+  from zoo.run import run_vcd
+  return run_vcd(repo,seed,tier)
 def rtl_extra(prop,tier,seed,repo,reg,known):
   from .rtl_run import run_specs
   return run_specs([sp for sp in rtl_specs() if prop in sp.prop_ids],tier,repo)
@@ -115,4 +118,9 @@ PROPERTIES={
    note="MagicMemoryCL.up_mem / MagicMemoryRTL.up_mem and the delay/stall components are exercised only by the bounded stand-in (CL method scheduling and greenlets are outside pyvc/rtlvc). Ports use disjoint address regions in the stand-in, so inter-port ordering is not constrained.",
    explanation="memory primitives proved deductively; system-level in-order/timing-independence checked natively on enumerated timing configurations (bounded)",
    extra=['contracts:c18_extra'], require_cover=False, assumptions=["Bits data passed to write_bytearray_bits has at least 8 bits (always 8*nbytes in the memories)"]),
+ 'C16': dict(level='other', bounded_only=True,
+   claim="Bounded stand-in only (no obligation proved): on 17 designs (zoo families A and C samples, a 96-stage and a 10-stage delay line with a struct signal, a shared net and a never-changing signal, a 64-bit signal walking through values whose (width,value) hashes coincide) and 2 (quick) / 6 (thorough) seeded input sequences, the VCD file written by VcdGenerationPass - read back by an independent parser written here - declares every signal of every component with its width and gives it at every cycle exactly the packed value the simulator held; the clock toggles exactly once per cycle; the text-wave record holds the same values. The symbol generator, extracted mechanically from the real source, yields 100000 pairwise distinct printable symbols.",
+   note="dump_vcd_inner's change compression is not under a discharged contract (strings and eval are outside pyvc). Labelled bounded.",
+   explanation="executable statement of the property on enumerated designs and seeded inputs",
+   extra=['contracts:c16_extra'], require_cover=False, assumptions=["file writes are not reordered"]),
 }
